@@ -35,6 +35,7 @@ import RdfModel.Props.C09Defs
 import RdfModel.Spec.GraphIso
 import RdfModel.Spec.RFC3986
 import RdfModel.Proofs.C09Write
+import RdfModel.Spec.RdfXmlWriter
 namespace RdfModel.C09
 open RdfModel RdfModel.Desc RdfModel.RX
 
@@ -69,6 +70,16 @@ theorem write_denote (rs : Str → Str → Str) (base : Str) (label : β → Str
     (hσ : Function.Injective ch.rename) :
     ∃ out, denoteDoc rs ⟨base, none⟩ (write rs base label g ch) = .ok out ∧ Spec.Iso out g :=
   RX.write_denote rs base label hl g hg ch hσ
+
+/-- **C09 (fragment), switch-driven writer.**  For every graph of the fragment and every setting of the
+    switches (grouping, typed node elements, property attributes, rdf:li, rdf:ID, language hoisting,
+    striping, xml:base with relative references) the document `writeAuto` produces denotes the graph up to
+    blank-node renaming. -/
+theorem writeAuto_denote [DecidableEq β] (rs : Str → Str → Str) (base : Str) (label : β → Str)
+    (hl : LabelsOK label) (g : List (Triple β)) (hg : ∀ t ∈ g, TripleOK rs base t) (k : Knobs) :
+    ∃ out, denoteDoc rs ⟨base, none⟩ (writeAuto rs base label g k) = .ok out ∧ Spec.Iso out g :=
+  RX.write_denote rs base label hl g hg ⟨autoPlan rs base k label g, fun b => BN.named (label b)⟩
+    (fun _ _ h => hl.inj (BN.named.inj h))
 
 /-- The writer uses the chosen plan whenever it is a valid way of writing `g`. -/
 theorem write_uses_choice (rs : Str → Str → Str) (base : Str) (label : β → Str) (g : List (Triple β))
@@ -174,6 +185,14 @@ theorem rename_inj : Function.Injective rename := by
 
 theorem plan2_writes_g : (flatDoc plan2).Perm (g.map (Triple.map rename)) := by
   rw [← List.isPerm_iff]; decide
+
+/-- all switches on: the automatic plan for the witness graph is a valid way of writing it (so
+    `writeAuto` renders it rather than the flat plan) -/
+def knobs : Knobs :=
+  { group := true, typed := true, attrs := true, li := true, useID := true, hoist := true, nest := true,
+    rel := true, base := some (s "http://b/d/") }
+
+theorem auto_used : autoPlanUsed Spec.RFC3986.resolve base label g knobs = true := by decide
 
 end Witness
 
